@@ -1191,8 +1191,41 @@ func c13LengthNarrowing(w *World, r *Report, pos token.Pos) {
 // the operands named by what they read: GetStart/GetEnd of part 0, of the
 // loop's part i, or of its predecessor i-1.
 func c13BoundaryTests(w *World, f *ssa.Function, cerr *types.Func) []string {
+	return c13BoundaryTestsIn(w, f, cerr, nil, 0)
+}
+
+// c13BoundaryTestsIn: outer resolves a parameter of f (used as a part index) to
+// the index it is given at the call site looked at — a test moved into a
+// helper that is handed the index reads as the test at the caller's index.
+func c13BoundaryTestsIn(w *World, f *ssa.Function, cerr *types.Func, outer func(*ssa.Parameter) string, depth int) []string {
 	if f == nil {
 		return nil
+	}
+	var indexOf func(v ssa.Value) string
+	indexOf = func(v ssa.Value) string {
+		switch x := v.(type) {
+		case *ssa.Const:
+			if k, ok := intConstOf(x); ok {
+				return fmt.Sprint(k)
+			}
+		case *ssa.Phi:
+			return "i"
+		case *ssa.Parameter:
+			if outer != nil {
+				return outer(x)
+			}
+		case *ssa.BinOp:
+			if one, ok := intConstOf(x.Y); ok && one == 1 {
+				if base := indexOf(x.X); base == "i" {
+					if x.Op == token.SUB {
+						return "i-1"
+					} else if x.Op == token.ADD {
+						return "i+1"
+					}
+				}
+			}
+		}
+		return "?"
 	}
 	operand := func(v ssa.Value) string {
 		c, ok := v.(*ssa.Call)
@@ -1203,26 +1236,7 @@ func c13BoundaryTests(w *World, f *ssa.Function, cerr *types.Func) []string {
 		if n != "GetStart" && n != "GetEnd" {
 			return "?"
 		}
-		idx := "?"
-		switch x := c.Call.Args[0].(type) {
-		case *ssa.Const:
-			if k, ok := intConstOf(x); ok {
-				idx = fmt.Sprint(k)
-			}
-		case *ssa.Phi:
-			idx = "i"
-		case *ssa.BinOp:
-			if one, ok := intConstOf(x.Y); ok && one == 1 {
-				if _, isPhi := x.X.(*ssa.Phi); isPhi {
-					if x.Op == token.SUB {
-						idx = "i-1"
-					} else if x.Op == token.ADD {
-						idx = "i+1"
-					}
-				}
-			}
-		}
-		return n + "(" + idx + ")"
+		return n + "(" + indexOf(c.Call.Args[0]) + ")"
 	}
 	errorIn := func(b *ssa.BasicBlock) bool {
 		for _, eb := range f.Blocks {
@@ -1241,7 +1255,26 @@ func c13BoundaryTests(w *World, f *ssa.Function, cerr *types.Func) []string {
 	for _, b := range f.Blocks {
 		for _, in := range b.Instrs {
 			c, ok := in.(*ssa.Call)
-			if !ok || !c.Call.IsInvoke() || len(c.Call.Args) != 2 {
+			if !ok {
+				continue
+			}
+			// a helper of the package that is handed a part index: its tests, at that index
+			if h := c.Call.StaticCallee(); h != nil && h.Pkg == f.Pkg && h.Blocks != nil && h != f && depth < 2 && h.Object() != types.Object(cerr) {
+				site := c
+				sub := c13BoundaryTestsIn(w, h, cerr, func(prm *ssa.Parameter) string {
+					for k, q := range h.Params {
+						if q == prm && k < len(site.Call.Args) {
+							return indexOf(site.Call.Args[k])
+						}
+					}
+					return "?"
+				}, depth+1)
+				for _, d := range sub {
+					set[d] = true
+				}
+				continue
+			}
+			if !c.Call.IsInvoke() || len(c.Call.Args) != 2 {
 				continue
 			}
 			m := c.Call.Method.Name()
